@@ -1440,3 +1440,39 @@ def check_listing_lines_terminated(db, rep, rule):
     if n < 15:
         raise AnalysisBroken("only %d direct listing writes found in the x86 back ends" % n)
     return n
+
+
+def check_is4_operand_first(db, rep, rule):
+    """Four-operand VEX instructions (vblendvpd) carry their fourth register in imm8[7:4]; AT&T syntax writes that operand FIRST:
+    `vblendvpd %mask, %rm, %vvvv, %dest`.  The encoder takes it from xinsn->src[2] (orc_vex_insn_output_immediate); the listing
+    builds its text in src_3rd_op.  In the line the listing prints for VEX instructions, src_3rd_op must therefore precede the
+    other source operands - printed after them, GNU as reads the mask as VEX.vvvv and the first source as the mask: the listing
+    assembles to a different program."""
+    from rules_common import where
+    tu = db.tu("orcx86insn")
+    enc = tu.fn.get("orc_vex_insn_output_immediate")
+    lst = tu.fn.get("orc_x86_insn_output_asm")
+    if enc is None or lst is None:
+        raise AnalysisBroken("orc_vex_insn_output_immediate / orc_x86_insn_output_asm not found")
+    if not any(x.k == "BinaryOperator" and x.op == "<<" and "src[2]" in unparse(x.c[0]).replace(" ", "") and strip_casts(x.c[1]).v == 4 for x in enc.walk()):
+        raise AnalysisBroken("orc_vex_insn_output_immediate no longer puts src[2] into imm8[7:4] (premise of the rule)")
+    rep.saw(lst)
+    n = 0
+    for c in lst.calls("orc_compiler_append_code"):
+        a = c.args()
+        lit = strip_casts(a[1]) if len(a) > 1 else None
+        if lit is None or lit.k != "StringLiteral" or not (lit.get("str", "") or "").lstrip().startswith("v%s"):
+            continue
+        names = [strip_casts(x).name if strip_casts(x) is not None and strip_casts(x).k == "DeclRefExpr" else None for x in a[2:]]
+        third = [i for i, nm in enumerate(names) if nm and "3rd" in nm]
+        others = [i for i, nm in enumerate(names) if nm and nm.startswith("src_") and "3rd" not in nm]
+        if not third:
+            continue
+        n += 1
+        rep.check(all(third[0] < o for o in others), rule, where(lst), "vex-line@%s" % c.line, "the operand encoded in imm8[7:4] is printed first",
+                  "orc_x86_insn_output_asm prints the VEX operands in the order %s: the register that the encoder puts into imm8[7:4] (src[2], the mask of "
+                  "vblendvpd) must come first in AT&T syntax; as printed, the assembler takes the first source for the mask and the mask for VEX.vvvv" %
+                  [nm for nm in names if nm], line=c.line)
+    if n < 1:
+        raise AnalysisBroken("the VEX listing line with a third source operand was not found")
+    return n
